@@ -390,3 +390,14 @@ NEUTRAL += [
     {"id": "n-close-loop-do", "props": ["C14"],
      "edits": [(WC, "            while (write_lzma(2048, LZMA_FINISH) != LZMA_STREAM_END);\n", "            while (write_lzma(4096, LZMA_FINISH) != LZMA_STREAM_END) {\n            }\n")]},
 ]
+
+MUTANTS += [
+    m("c01-stats-first-only", "C01", "R01.7", [(B, "    // Update block statistics\n    if (stats)\n        m_block_statistics = stats;\n\n    // Indicate if the Block is full (DNS record is inserted anyway, the limit is just a guideline)", "    // Update block statistics\n    if (stats && !m_block_statistics)\n        m_block_statistics = stats;\n\n    // Indicate if the Block is full (DNS record is inserted anyway, the limit is just a guideline)")],
+      "block keeps the first statistics supplied instead of the most recent"),
+    m("c01-prepend", "C01", "R01.8", [(B, "    if (mm_filled)\n        m_malformed_messages.push_back(mm);", "    if (mm_filled)\n        m_malformed_messages.insert(m_malformed_messages.begin(), mm);")], "malformed messages stored in reverse order"),
+    m("c07-negative", "C07", "R07.6", [(DE, "    return -1 - read_int(item_length);", "    return -read_int(item_length);")], "negative integers decoded as -n"),
+    m("c07-bool-swapped", "C07", "R07.6", [(DE, "        return bool_value == 21;", "        return bool_value == 20;")], "simple values 20/21 decoded swapped"),
+    m("c17-sign", "C17", "R17.6", [(TS, "    return ticks - ref_ticks;", "    return ref_ticks - ticks;")], "offset sign reversed"),
+    m("c17-formula", "C17", "R17.6", [(TS, "    int64_t ref_ticks = (reference.m_secs * ticks_per_second) + reference.m_ticks;", "    int64_t ref_ticks = (reference.m_secs * ticks_per_second) + m_ticks;")], "reference total uses this->m_ticks"),
+    m("c20-rand", "C20", "R20.2", [(EN, "void CDNS::CdnsEncoder::flush_buffer()\n{", "void CDNS::CdnsEncoder::flush_buffer()\n{\n    if (std::rand() == -1)\n        return;")], "std::rand (hidden global state) called on the write path"),
+]
